@@ -26,15 +26,9 @@ Proof.
   rewrite last_nth by auto. apply nth_error_nth'. destruct chunk; [congruence | cbn; lia].
 Qed.
 
-Lemma delta_i16_spec d d16 : delta_i16 d = Some d16 -> -32768 <= d16 < 32768 /\ (d16 - d) mod 65536 = 0.
+Lemma delta_i16_spec d : -32768 <= delta_i16 d < 32768 /\ (delta_i16 d - d) mod 65536 = 0.
 Proof.
-  unfold delta_i16, chk_s, in_s. change (- 2 ^ (16 - 1)) with (-32768). change (2 ^ (16 - 1)) with 32768.
-  destruct ((-32768 <=? d) && (d <? 32768)) eqn:E.
-  - intros H. inversion H; subst. split; [lia|]. rewrite Z.sub_diag. reflexivity.
-  - destruct ((-32768 <=? d mod 65536) && (d mod 65536 <? 32768)) eqn:E2; [|discriminate].
-    intros H. inversion H; subst. apply andb_true_iff in E2. destruct E2 as [Ea Eb].
-    apply Z.leb_le in Ea. apply Z.ltb_lt in Eb. split; [lia|].
-    rewrite Zminus_mod, Z.mod_mod, Z.sub_diag by lia. reflexivity.
+  unfold delta_i16, wrap_s. change (2 ^ (16 - 1)) with 32768. change (2 ^ 16) with 65536. lia.
 Qed.
 
 (* ---------- what create_format_4's loop produces ---------- *)
@@ -85,10 +79,10 @@ Proof.
     cbn [length] in Hi.
     destruct (id_delta s) as [d|] eqn:Ed.
     + destruct (Hd d eq_refl) as [Hdv Hgr].
-      destruct (delta_i16 d) as [d16|] eqn:E16; [|discriminate]. cbn [obind] in E.
+      cbn zeta in E.
       destruct (f4_loop ms nseg (S i) cur_n segs) as [[rows' gids']|] eqn:Er; [|discriminate].
       cbn [obind fst snd] in E. inversion E; subst rows gids; clear E.
-      apply delta_i16_spec in E16. destruct E16 as [Hr Hm]. subst d.
+      destruct (delta_i16_spec d) as [Hr Hm]. subst d.
       apply ro_delta; auto. eapply IH; eauto. lia.
     + destruct (Nat.ltb nseg i) eqn:Eni; [discriminate|]. apply Nat.ltb_ge in Eni.
       destruct (chk_u 16 (Z.of_nat (nseg - i + cur_n) * 2)) as [ro|] eqn:Ero; [|discriminate].
